@@ -213,7 +213,12 @@ pub fn run_sweep<E: Elem>(seed: u64, cfg: &ArrayCfg, mut j: Journal<'_>, only_va
         }
         let mut o = finish(eng, done, cfg.flavour, cfg.alloc_mode, v);
         o.fault_runs = true;
+        let stop = o.viol.is_some();
         outs.push(o);
+        if stop {
+            // the heap of this process may be damaged: do not run further variants here
+            break;
+        }
     }
     outs
 }
